@@ -456,3 +456,8 @@ impl std::io::Read for CountingReader<'_> {
 pub fn hexs(b: &[u8]) -> String {
     hex::encode(b)
 }
+
+/// Root of the repository under test (`/repo`, or the scratch worktree named by `VERIF_REPO`).
+pub fn repo_root() -> PathBuf {
+    PathBuf::from(std::env::var("VERIF_REPO").unwrap_or_else(|_| "/repo".to_string()))
+}
